@@ -465,9 +465,15 @@ def _install_summaries(model, it):
 
 
 def _cursor_of(args):
+    """Cursor position of the FileWrapper among the arguments: -1 before the first line, k after reading
+    line k (whatever the field is called: the lines list and the integer fields identify a wrapper)."""
     for a in args:
-        if isinstance(a, Obj) and '_index' in a.attrs:
-            return a.attrs['_index'] if isinstance(a.attrs['_index'], int) else 'abs'
+        if isinstance(a, Obj) and isinstance(a.attrs.get('lines'), list):
+            if '_index' in a.attrs:
+                return a.attrs['_index'] if isinstance(a.attrs['_index'], int) else 'abs'
+            ints = [v for k, v in sorted(a.attrs.items()) if isinstance(v, int) and not isinstance(v, bool)
+                    and k not in ('start_line', '_anchor')]
+            return ints[0] if ints else 'abs'
     return None
 
 
